@@ -7,14 +7,14 @@ Import ListNotations.
 Local Open Scope Z_scope.
 
 Section Envelope.
-Variables (c : cfg) (sh : share) (vid role h rho ld v fdlen nrc : N) (rcfull : bool) (nrcj npj : N) (p2p : bool) (rawlen dlen pkprefix : N).
+Variables (c : cfg) (sh : share) (vid role h rho ld v fdlen nrc : N) (rcfull : bool) (nrcj npj : N) (dsig : N -> list N) (p2p : bool) (rawlen dlen pkprefix : N).
 
 Definition henv (t s : N) : envelope :=
   {| e_p2p := p2p; e_raw_len := rawlen; e_topic := Some (pkprefix mod subnetsCount)%N;
      e_op_found := true; e_op_key_ok := true; e_rsa_ok := true; e_ssv_decode_ok := true;
      e_data_len := dlen; e_domain := c_domain c; e_pk_prefix := pkprefix; e_role := role;
      e_pk_deser_ok := true; e_vid := vid; e_msg_type := ssvConsensusMsgType;
-     e_body := BConsensus (hmsg h rho v fdlen nrc rcfull nrcj npj t s) |}.
+     e_body := BConsensus (hmsg h rho v fdlen nrc rcfull nrcj npj dsig t s) |}.
 
 Hypothesis W : wf_cfg c.
 Hypothesis Hshare : get_share c vid = Some sh.
@@ -38,21 +38,22 @@ Definition in_slot (now : Z * Z) : Prop := wf_time c now /\ true_slot c (fst now
 
 Lemma honest_envelope_accepted : forall now sent vs t s,
   in_slot now ->
-  inv h rho v sent (get_cs key vs) -> honest_item sh ld (t, s) -> ~ In (t, s) sent ->
+  inv h rho v dsig sent (get_cs key vs) -> honest_item sh ld dsig (t, s) -> ~ In (t, s) sent ->
+  (is_dec t = true -> ndec sent < max_decided (Z.of_nat (length (s_committee sh)))) ->
   exists vs', validate c vs now (henv t s) = (Accept, vs') /\
-              inv h rho v ((t, s) :: sent) (get_cs key vs').
+              inv h rho v dsig ((t, s) :: sent) (get_cs key vs').
 Proof.
-  intros now sent vs t s [T Hslot] I Hh Hn.
+  intros now sent vs t s [T Hslot] I Hh Hn Hmax.
   set (recv := time_unix (fst now) (snd now)).
   pose proof (own_slot_passes_slot_time c now role h W T Hslot) as Ht1.
   pose proof (own_slot_round_in_window c now h rho W T Hslot Hrho2) as Ht2.
   assert (Hrho6 : (rho <= 6)%N) by lia.
   assert (Hcore : forall verifier, run_verifier verifier = None ->
             exists vs', validate_ssv c vs recv (henv t s) verifier = (Accept, vs') /\
-                        inv h rho v ((t, s) :: sent) (get_cs key vs')).
+                        inv h rho v dsig ((t, s) :: sent) (get_cs key vs')).
   { intros verifier Hv.
-    destruct (honest_message_accepted c sh role h rho ld v fdlen nrc rcfull nrcj npj Hrole Hvalid Hmeta Hleader Hrr Hfd Hrho1 Hrho6
-                recv verifier sent (get_cs key vs) t s Ht1 Ht2 Hv I Hh Hn) as (cs' & Ev & I').
+    destruct (honest_message_accepted c sh role h rho ld v fdlen nrc rcfull nrcj npj dsig Hrole Hvalid Hmeta Hleader Hrr Hfd Hrho1 Hrho6
+                recv verifier sent (get_cs key vs) t s Ht1 Ht2 Hv I Hh Hn Hmax) as (cs' & Ev & I').
     unfold validate_ssv. cbn [henv e_data_len e_domain e_role e_pk_deser_ok e_vid e_msg_type e_body].
     destruct (N.eqb_spec dlen 0); [contradiction|].
     assert (E1 : (maxMessageSize <? dlen)%N = false) by (apply N.ltb_ge; exact Hd1).
@@ -80,21 +81,25 @@ Qed.
 Theorem honest_round_accepted_at_the_gate : forall l vs,
   before_round h rho (get_cs key vs) ->
   NoDup (map snd l) ->
-  Forall (fun x => in_slot (fst x) /\ honest_item sh ld (snd x)) l ->
+  Forall (fun x => in_slot (fst x) /\ honest_item sh ld dsig (snd x)) l ->
+  decided_within_limit sh [] (map snd l) ->
   Forall (eq Accept) (snd (run c vs (map (fun x => (fst x, henv (fst (snd x)) (snd (snd x)))) l))).
 Proof.
-  intros l vs Hfresh Hnd Hall.
+  intros l vs Hfresh Hnd Hall Hlim.
   assert (G : forall l sent vs,
-            inv h rho v sent (get_cs key vs) -> NoDup (map snd l) ->
+            inv h rho v dsig sent (get_cs key vs) -> NoDup (map snd l) ->
             (forall x, In x l -> ~ In (snd x) sent) ->
-            Forall (fun x => in_slot (fst x) /\ honest_item sh ld (snd x)) l ->
+            Forall (fun x => in_slot (fst x) /\ honest_item sh ld dsig (snd x)) l ->
+            decided_within_limit sh sent (map snd l) ->
             Forall (eq Accept) (snd (run c vs (map (fun x => (fst x, henv (fst (snd x)) (snd (snd x)))) l)))).
-  { clear l vs Hfresh Hnd Hall.
-    induction l as [|[now [t s]] tl IH]; intros sent vs I Hnd Hf Hall; [constructor|].
+  { clear l vs Hfresh Hnd Hall Hlim.
+    induction l as [|[now [t s]] tl IH]; intros sent vs I Hnd Hf Hall Hlim; [constructor|].
     inversion Hall as [|x l' [Hs Hh] Hall']; subst. cbn [fst snd] in *.
     inversion Hnd as [|x l' Hni Hnd']; subst.
+    destruct (ndec_step sh sent t s (map snd tl) Hlim) as [Hmax Hlim'].
     destruct (honest_envelope_accepted now sent vs t s Hs I Hh) as (vs' & Ev & I').
     { apply (Hf (now, (t, s))). left. reflexivity. }
+    { exact Hmax. }
     cbn [map run fst snd]. rewrite Ev.
     destruct (run c vs' (map (fun x => (fst x, henv (fst (snd x)) (snd (snd x)))) tl)) as [vs2 rs] eqn:Er.
     cbn [snd]. constructor; [reflexivity|].
